@@ -2,7 +2,7 @@
 from __future__ import annotations
 
 from .harness import Explorer
-from .rules import part, wrappers, pent
+from .rules import part, wrappers, pent, sysz
 
 
 def _class_of(table, key):
@@ -25,6 +25,21 @@ def C01(rep, prog, tier):
     part.check_all(rep, ex, only=("inference.consistency_sat.consistency",))
 
 
+def C02(rep, prog, tier):
+    rep.explanation = ("C02: System Z: partition flow from preprocessing, layer assertions / tests / decision table of the "
+                       "descending recursion, strict start index, shared short cut; PART.* of `consistency`")
+    ex = Explorer(prog, rep)
+    table = wrappers.dispatch(rep, ex)
+    cls = _class_of(table, ("system-z", None))
+    if cls:
+        sysz.check_partition_flow_plain(rep, ex, cls, "cond")
+        sysz.rec(rep, ex, cls)
+        sysz.entry_z(rep, ex, cls, strict=True, extended=False)
+    wrappers.shortcut_guard(rep, ex)
+    wrappers.shortcut_dominance(rep, ex)
+    part.check_all(rep, ex, only=("inference.consistency_sat.consistency",))
+
+
 def C06(rep, prog, tier):
     rep.explanation = ("C06: tolerance-partition obligations PART.* on consistency/consistency_indices (scope of every "
                        "satisfiability test, split, balance, terminal decisions, advance, siblings); diagnostics flags; refusal")
@@ -36,4 +51,4 @@ def C06(rep, prog, tier):
     wrappers.shortcut_dominance(rep, ex)
 
 
-CHECKS = {"C01": C01, "C06": C06}
+CHECKS = {"C01": C01, "C02": C02, "C06": C06}
